@@ -108,11 +108,29 @@ def _initiate(chk, repo, folder, ff, fr):
 
 def _segment(chk, repo, folder, ff, fr):
     f = ff.func
-    flags = [n for n in own_nodes(f.node) if isinstance(n, ast.AugAssign) and isinstance(n.op, ast.BitOr) and folder.try_fold(n.value, ff.scope, None) == 0x80]
+    # every place where bit 7 (no more blocks) enters the command byte: `command |= 0x80`, `x = seqno | 0x80` in a branch, or a
+    # conditional expression; each must be selected by `end`
+    from .common import or_terms as _ort
+
+    def has80(e):
+        return any(folder.try_fold(t_, ff.scope, None) == 0x80 for t_ in _ort(e))
+    flags = []
+    for n in own_nodes(f.node):
+        if isinstance(n, ast.AugAssign) and isinstance(n.op, ast.BitOr) and has80(n.value):
+            flags.append(("stmt", n))
+        elif isinstance(n, ast.Assign) and isinstance(n.value, ast.BinOp) and isinstance(n.value.op, ast.BitOr) and has80(n.value):
+            flags.append(("stmt", n))
+        elif isinstance(n, ast.IfExp) and (any(has80(x) for x in _ort(n.body)) or has80(n.body)) != (any(has80(x) for x in _ort(n.orelse)) or has80(n.orelse)):
+            flags.append(("ifexp", n))
     chk.floor("R2", len(flags), 1, "NO_MORE_BLOCKS flag in send")
-    for a in flags:
-        g = [(src(e), p) for e, p in ff.facts_at(a)]
-        chk.check(("end", True) in g, "R2", f"{CL}:{f.qualname} | last-segment flag only for the last data", f.loc(a), f"0x80 set under {g}")
+    for kind, a in flags:
+        if kind == "stmt":
+            g = [(src(e), p) for e, p in ff.facts_at(a)]
+            chk.check(("end", True) in g, "R2", f"{CL}:{f.qualname} | last-segment flag only for the last data", f.loc(a), f"0x80 set under {g}")
+        else:
+            in_body = has80(a.body)
+            ok_ = (src(a.test) == "end" and in_body) or (src(a.test) == "not end" and not in_body)
+            chk.check(ok_, "R2", f"{CL}:{f.qualname} | last-segment flag only for the last data", f.loc(), f"0x80 selected by `{src(a.test)}` in `{src(a)}`")
     data = [s_ for s_ in fr.stores if s_.lo == 1]
     chk.check(len(data) == 1 and src(data[0].value) == "b", "R2", f"{CL}:{f.qualname} | segment data", f.loc(), "segment does not carry the chunk at bytes 1..")
     w = repo.func(CL, f"{C}.write", "C12.R2")
